@@ -53,7 +53,8 @@ func (self *ListRange) CheckListPreConstraints(r *ListRequest) (bool, error) {
 		if r.First {
 			r.SetStartRow(self.StartRow)
 			r.SetRow(self.StartRow)
-		} else if r.Row64 >= self.EndRow && self.EndRow != -1 {
+		}
+		if r.Row64 >= self.EndRow && self.EndRow != -1 {
 			return false, nil
 		}
 	}
